@@ -176,7 +176,7 @@ fn parse_textures(reader: &mut Cursor<&[u8]>, txob: &Vec<TXOB>) -> Result<Vec<Te
         let mut filename_buffer: Vec<u8> = Vec::new();
         reader.read_until(0x0, &mut filename_buffer)?;
         filename_buffer.pop(); // Get rid of the null terminator.
-        let (result, _, errors) = UTF_8.decode(filename_buffer.as_slice());
+        let (result, errors) = UTF_8.decode_without_bom_handling(filename_buffer.as_slice());
         if errors {
             return Err(TextureParseError::BadText);
         }
